@@ -10,6 +10,8 @@ package checks
 import (
 	"bytes"
 	"fmt"
+	"os"
+	"strings"
 	"sync"
 	"testing"
 
@@ -33,6 +35,11 @@ type c03Case struct {
 	// Appear > 0: the name is free when the request starts and the object is put there out of band (another
 	// client or a local process) immediately before the server's Appear-th backend call that names it.
 	Appear int `json:"appear,omitempty"`
+	// FaultAt > 0: the server's FaultAt-th backend call naming the target fails with c14Faults[FaultErr] (a backend
+	// that is out of space, denies access, times out ...). Whatever the reply then says, an object that was there
+	// must still be there, untouched.
+	FaultAt  int `json:"fault_at,omitempty"`
+	FaultErr int `json:"fault_err,omitempty"`
 }
 
 func (c c03Case) sattr() nfsx.Sattr {
@@ -63,8 +70,16 @@ func runC03(tb stat.TB, c c03Case) {
 	v := vfs.New()
 	opts := absnfs.ExportOptions{}
 	c.Cache.apply(&opts)
-	s := newSession(tb, v, opts)
+	var faulty *vfs.Faulty
+	var s *session
+	if c.FaultAt > 0 {
+		faulty = vfs.NewFaulty(v)
+		s = newSessionOn(tb, faulty, v, opts)
+	} else {
+		s = newSession(tb, v, opts)
+	}
 	defer s.close()
+	faulted := false
 	verfA := [8]byte{1, 2, 3, 4, 5, 6, 7, 8}
 	verfB := [8]byte{9, 9, 9, 9, 9, 9, 9, 9}
 	data := c.Data
@@ -152,11 +167,41 @@ func runC03(tb stat.TB, c c03Case) {
 				pre = v.Snapshot()
 			})
 		}
+		if faulty != nil {
+			var fmu sync.Mutex
+			k := 0
+			ferr := c14Faults[c.FaultErr%len(c14Faults)]
+			faulty.Arm(func(op string, paths []string, n int) error {
+				fmu.Lock()
+				defer fmu.Unlock()
+				names := false
+				for _, p := range paths {
+					if p == "/x" {
+						names = true
+					}
+				}
+				if !names {
+					return nil
+				}
+				k++
+				if k != c.FaultAt {
+					return nil
+				}
+				faulted = true
+				return &os.PathError{Op: strings.ToLower(op), Path: "/x", Err: ferr}
+			})
+		}
 		res := s.nfs(nfsx.ProcCreate, nfsx.ArgsCreate(root, "x", c.How, c.sattr(), verf))
+		if faulty != nil {
+			faulty.Arm(nil)
+		}
 		v.SetBefore(nil)
 		post := v.Snapshot()
 		preEnt, existed := pre["/x"]
 		desc := fmt.Sprintf("CREATE mode=%d flags=%06b size=%d on existing=%s creator=%s", c.How, c.Flags, c.Size, c.Existing, c.Creator)
+		if faulted {
+			desc += fmt.Sprintf(" (the server's backend call #%d on the name failed with %q)", c.FaultAt, c14Faults[c.FaultErr%len(c14Faults)])
+		}
 		if appeared {
 			desc += fmt.Sprintf(" (put there out of band just before the server's backend call #%d on the name)", c.Appear)
 		}
@@ -192,7 +237,7 @@ func runC03(tb stat.TB, c c03Case) {
 		identical := preEnt == postEnt
 		switch {
 		case c.How == nfsx.Guarded:
-			if res.Status != nfsx.ErrExist {
+			if res.Status != nfsx.ErrExist && !faulted {
 				if stat.Violate(tb, id, check, "guarded-existing-not-EXIST", c, "%s replied %s, want NFS3ERR_EXIST", desc, statusName(res.Status)) {
 					return
 				}
@@ -209,17 +254,17 @@ func runC03(tb stat.TB, c c03Case) {
 					return
 				}
 			}
-			if res.Status == nfsx.OK && !retransmission {
+			if res.Status == nfsx.OK && !retransmission && !faulted {
 				if stat.Violate(tb, id, check, "exclusive-ignores-verifier:"+c.Existing, c, "%s replied OK although the object was not made by an EXCLUSIVE create with this verifier", desc) {
 					return
 				}
 			}
-			if res.Status != nfsx.OK && res.Status != nfsx.ErrExist {
+			if res.Status != nfsx.OK && res.Status != nfsx.ErrExist && !faulted {
 				if stat.Violate(tb, id, check, "exclusive-existing-wrong-status", c, "%s replied %s, want OK (retransmission) or NFS3ERR_EXIST", desc, statusName(res.Status)) {
 					return
 				}
 			}
-			if retransmission && res.Status != nfsx.OK {
+			if retransmission && res.Status != nfsx.OK && !faulted {
 				if stat.Violate(tb, id, check, "exclusive-retransmission-refused", c, "%s replied %s to the retransmission of the create that made the file", desc, statusName(res.Status)) {
 					return
 				}
@@ -267,6 +312,13 @@ func runC03(tb stat.TB, c c03Case) {
 	}
 	nt := c.Existing == "file" && len(c.Data) > 0 || c.Existing == "dirfull" || c.Existing == "linkfile"
 	ls := []string{"existing_" + c.Existing, fmt.Sprintf("mode_%d", c.How)}
+	if c.FaultAt > 0 {
+		if faulted {
+			ls = append(ls, "backend_fault_on_target")
+		} else {
+			nt = false
+		}
+	}
 	if c.Appear > 0 {
 		if appeared {
 			ls = append(ls, fmt.Sprintf("appeared_before_call_%d", c.Appear))
@@ -298,6 +350,15 @@ func c03Enumerate() []c03Case {
 				for _, how := range []uint32{nfsx.Unchecked, nfsx.Guarded, nfsx.Exclusive} {
 					for _, flags := range []int{0, 1, 8, 63} {
 						out = append(out, c03Case{Existing: ex, Data: data, How: how, Flags: flags, Size: 3, Creator: "plain", Cache: baselineCaches, Appear: appear})
+					}
+				}
+			}
+		}
+		if ex != "none" {
+			for at := 1; at <= 3; at++ {
+				for _, how := range []uint32{nfsx.Unchecked, nfsx.Guarded, nfsx.Exclusive} {
+					for _, fe := range []int{0, 1, 3, 8, 30} { // EIO EACCES ENOENT ENOSPC expired deadline
+						out = append(out, c03Case{Existing: ex, Data: data, How: how, Flags: 0, Creator: "plain", Cache: baselineCaches, FaultAt: at, FaultErr: fe})
 					}
 				}
 			}
@@ -341,6 +402,9 @@ func genC03(t *rapid.T) c03Case {
 		Cache:    cacheCfg{AttrTTLns: pick(t, "ttl", int64(1), int64(3600e9)), AttrSize: pick(t, "asize", 1, 10000), DirCache: rapid.Bool().Draw(t, "dc"), Negative: rapid.Bool().Draw(t, "neg")},
 		PreLook:  rapid.Bool().Draw(t, "prelook"),
 		Appear:   pick(t, "appear", 0, 0, 0, 1, 2, 3, 4, 5),
+	}
+	if rapid.IntRange(0, 3).Draw(t, "fault") == 0 {
+		c.FaultAt, c.FaultErr = rapid.IntRange(1, 5).Draw(t, "fault_at"), rapid.IntRange(0, len(c14Faults)-1).Draw(t, "fault_err")
 	}
 	return c
 }
